@@ -33,7 +33,7 @@ def string_program(rng, valid=True):
     for _ in range(rng.choice([2, 3, 5, 8, 14])):
         r, q, t = rng.randrange(4), rng.randrange(4), rng.randrange(4)
         op = rng.choice(["cz", "cb", "cc", "cl", "cs", "ca", "ca", "cn", "ci", "il", "ts", "ae", "as", "as", "pe", "ps", "ie", "ie", "ir", "ir",
-                         "ea", "ef", "er", "er", "sw", "ix", "ob", "ob", "ob", "am", "am", "pm", "mv", "sa", "cq", "cq", "cq", "bi", "ri", "ri"])
+                         "ea", "ef", "er", "er", "sw", "ix", "ob", "ob", "ob", "tw", "tw", "am", "am", "pm", "mv", "sa", "cq", "cq", "cq", "bi", "ri", "ri"])
         if op in ("cz", "cb", "cc", "cl", "cs", "ts"):
             bs, h = rand_text_hex(rng)
             parts.append("%s %d %s" % (op, r, h))
@@ -44,6 +44,8 @@ def string_program(rng, valid=True):
             bs, h = rand_text_hex(rng)
             parts.append("ca %d %s %s" % (r, h, " ".join(map(str, tg.attr(rng)))))
             size[r] = len(bs)
+        elif op == "tw":
+            parts.append("tw %d" % r)
         elif op == "cn":
             n = rng.choice([0, 1, 2, 5])
             parts.append("cn %d %d %s" % (r, n, tg.fmt_el(el())))
@@ -136,6 +138,31 @@ def compare_route_cases(rng, n):
 
 class Prop(PropBase):
     ID = "C17"
+    custom_replays = True
+
+    @staticmethod
+    def custom_check(tier, rng, ctx):
+        """the wire clause through the channel the library ships: strings written by a terminal bound to the real
+        stdout_channel - in a program that leaves a pending field width / fill / base on std::cout, one that called
+        sync_with_stdio(false), one whose stdout is a terminal device … (the child-process harness of C14) - must put
+        exactly the bytes on standard output that the capturing channel receives (whose glyph text is to_string, above)"""
+        from .C14 import Prop as P14
+        if ctx.get("replay"):
+            scripts = ctx["replay"]["lines"]
+        else:
+            r = __import__("random").Random(rng.random())
+            scripts = []
+            for _ in range(6 if tier == "quick" else 40):
+                es = [tg.element(r) for _ in range(r.choice([1, 2, 5, 12]))]
+                es2 = [tg.element(r) for _ in range(r.choice([1, 3]))]
+                scripts.append("T %d ; %s ; %s ; %s" % (r.choice([0, 16]), tg.op_ws(es), tg.op_we(es2[0]), tg.op_ws(es2)))
+        failures, children = [], 0
+        for sc in scripts:
+            res = P14.custom_check(tier, rng, dict(ctx, replay={"lines": [sc]}))
+            children += res.get("children_run", 0)
+            for f in res.get("failures", []):
+                failures.append(dict(f, signature="C17 wire-text-through-stdout-channel", what="C17 (string written through stdout_channel) " + f.get("what", "")))
+        return {"scripts_through_stdout_channel": len(scripts), "failures": failures}
     LEAN_MODULES = ["Tpp.Props.C17"]
     REQUIRED = ["Tpp.Props.C17." + n for n in ("C17_roundtrip", "C17_append", "C17_wire", "C17_wire_vt", "payload_eq_toString",
                                                 "writeString_segs", "C17_ctor_cstr", "C17_ctor_attr", "C17_ctor_fill",
